@@ -139,6 +139,19 @@ def z2_gpu(F, R, M, roles):
             for x in deep_subterms(S, v):
                 if x[0] == 'const' and isinstance(x[1], int) and x[2] == 'device::gpu::Command':
                     cmds.add(x[1])
+            if not cmds:
+                # the command code is a parameter of this helper: take it from every call site of the helper
+                pks = [x[1] for x in deep_subterms(S, v) if x[0] == 'param']
+                for cb in F.bodies.values():
+                    if not F.handwritten(cb) or not any(bl['term']['k'] == 'call' and bl['term'].get('fn') == b['id'] for bl in cb['blocks']):
+                        continue
+                    sgc = supergraph(F, cb['id'], tag='flat', max_depth=0)
+                    for cn in sgc.calls(lambda d: d.get('fn') == b['id']):
+                        for pk in pks:
+                            if pk - 1 < len(cn.d['args']):
+                                for x in deep_subterms(sgc.sym, sgc.sym.operand(cn.id, cn.d['args'][pk - 1])):
+                                    if x[0] == 'const' and isinstance(x[1], int) and x[2] == 'device::gpu::Command':
+                                        cmds.add(x[1])
             if cmd is not None:
                 R.check(cmds == {cmd}, 'Z2', '%s:command' % b['name'], where, '%s carries command %#x' % (req_ty, cmd),
                         '%s sends command code(s) %s in a %s request, specification %#x' % (b['name'], [hex(c) for c in cmds], req_ty, cmd))
@@ -193,18 +206,42 @@ def z2_gpu(F, R, M, roles):
             R.check(bad is None, 'Z2', 'gpu:check_type', fn_site(F, b['id']), 'Ok iff the response type equals the expected type', 'check_type: %s' % bad)
 
 
-def z3_z4_gpu(F, R, M, roles):
-    helpers = {}
+CMD_NAME = {'ResourceCreate2D': 'resource_create_2d', 'SetScanout': 'set_scanout', 'ResourceFlush': 'resource_flush', 'TransferToHost2D': 'transfer_to_host_2d',
+            'ResourceAttachBacking': 'resource_attach_backing', 'ResourceDetachBacking': 'resource_detach_backing', 'ResourceUnref': 'resource_unref',
+            'UpdateCursor': 'update_cursor', 'CmdGetEdid': 'get_edid', 'CtrlHeader': 'get_display_info'}
+
+
+def gpu_command_helpers(F):
+    """GPU method id -> specification command name, for the methods that directly hand one request structure of the
+    specification to the generic request helper (found by the request type, not by the method's name)."""
+    req_ids = set(b['id'] for b in gpu_helpers(F))
+    out = {}
     for b in F.bodies.values():
-        if b.get('impl_adt') == GPU and F.handwritten(b) and b['kind'] == 'AssocFn':
-            helpers[b['id']] = b['name']
+        if b.get('impl_adt') != GPU or not F.handwritten(b) or b['kind'] != 'AssocFn' or b['id'] in req_ids:
+            continue
+        tys = set()
+        for bl in b['blocks']:
+            t = bl['term']
+            if t['k'] == 'call' and t.get('fn') in req_ids:
+                rq = [x for x in t.get('substs', []) if x.startswith('device::gpu::')]
+                if rq and rq[0].rsplit('::', 1)[1] in CMD_NAME:
+                    tys.add(rq[0].rsplit('::', 1)[1])
+        if len(tys) == 1:
+            out[b['id']] = CMD_NAME[tys.pop()]
+    return out
+
+
+def z3_z4_gpu(F, R, M, roles):
+    helpers = gpu_command_helpers(F)
     seqs = {'change_resolution': [('resource_create_2d', 'resource_attach_backing'), ('resource_attach_backing', 'set_scanout')],
             'flush': [('transfer_to_host_2d', 'resource_flush')],
             'setup_cursor': [('resource_create_2d', 'resource_attach_backing'), ('resource_attach_backing', 'transfer_to_host_2d'), ('transfer_to_host_2d', 'update_cursor')]}
     for b in F.bodies.values():
-        if b.get('impl_adt') != GPU or b['name'] not in seqs or b['kind'] != 'AssocFn':
+        if b.get('impl_adt') != GPU or b['name'] not in seqs or b['kind'] != 'AssocFn' or not b.get('pub'):
             continue
-        sg = supergraph(F, b['id'], opaque=lambda t, bb: bb['id'] in helpers and bb['id'] != b['id'] or bb.get('impl_adt') == M.dma_adt, tag='c20z3')
+        # command helpers are events; other private methods of the driver are analysed inlined
+        sg = supergraph(F, b['id'], opaque=lambda t, bb: bb['id'] in helpers or (bb.get('impl_adt') == GPU and bb.get('pub') and bb['id'] != b['id'])
+                        or bb.get('impl_adt') == M.dma_adt or bb['id'] in roles, tag='c20z3')
         S = sg.sym
         live = sg.live_nodes()
         calls = {}
@@ -212,9 +249,24 @@ def z3_z4_gpu(F, R, M, roles):
             calls.setdefault(helpers[n.d['fn']], []).append(n)
         oks = [n for n in sg.nodes if n.ctx == 0 and n.kind == 'assign' and not n.d['place']['p'] and n.d['place']['l'] == 0
                and n.d['rv']['rv'] == 'agg' and n.d['rv'].get('variant') == 'Ok' and n.id in live]
+        try:
+            okpaths = [p for p in PathEnum(sg).run() if not p.panicked and err_variant(p.ret) == 'Ok'] if not back_edges(sg) else None
+        except PathLimit:
+            okpaths = None
         for first, then in seqs[b['name']]:
             fs = [n.id for n in calls.get(first, [])]
             ts = [n for n in calls.get(then, [])]
+            if okpaths is not None:
+                # path-enumerated (an early error return of an inlined private helper is then not confused with its success):
+                # on every successful path the last `then` is preceded by a `first`
+                ok = bool(okpaths)
+                for p in okpaths:
+                    seq = [helpers[e[2]] for e in p.effects if e[0] == 'call' and e[2] in helpers]
+                    if then not in seq or first not in seq[:len(seq) - seq[::-1].index(then) - 1]:
+                        ok = False
+                R.check(ok, 'Z3', '%s:%s-before-%s' % (b['name'], first, then), fn_site(F, b['id']), '%s precedes %s on every successful path' % (first, then),
+                        '%s: %s is not always preceded by %s' % (b['name'], then, first))
+                continue
             # the *last* call of `then` on the way to Ok must be dominated by a `first`
             ok = bool(fs) and bool(ts)
             for o in oks:
@@ -384,7 +436,8 @@ def z5_pcm(F, R, M, roles):
         if b.get('impl_adt') != snd or b['name'] not in ('pcm_xfer', 'pcm_xfer_nb') or b['kind'] != 'AssocFn':
             continue
         qids = set(roles) | set(x['id'] for x in queue_entry_points(F, M))
-        sg = supergraph(F, b['id'], opaque=lambda t, bb: bb['id'] in qids or (bb.get('impl_adt') == snd and bb['id'] != b['id']), tag='c20p')
+        sg = supergraph(F, b['id'], opaque=lambda t, bb: bb['id'] in qids or (bb.get('impl_adt') == snd and bb['id'] != b['id'] and (bb.get('pub') or has_loop(bb))),
+                        tag='c20p')
         S = sg.sym
         adds = [n for n in sg.calls(lambda d: roles.get(d.get('fn')) == 'add')]
         for a in adds:
